@@ -967,6 +967,7 @@ def r_token_names(repo, rep, R='R15.5'):
     w2 = '%s:%s normalize_tokens' % (CT, nt.lineno)
     n_paths = 0
     bad = []
+    stale = []
     for st, o in SymExec(nt, unroll=1).run():
         if not any(e[0] == 'loop-enter' for e in st.events):
             continue
@@ -983,8 +984,25 @@ def r_token_names(repo, rep, R='R15.5'):
                 e[0] == 'branch' and any(x == C(attr) or (written[0] != 'const' and x == written) for x in subterms(e[1])) for e in later)
             if not decided:
                 bad.append('%s = %s' % (attr, show(st.events[raw[-1]][1][2][1])[:50]))
+                continue
+            # the normalisation that follows works on what is in the attribute *now*: the value just written, or the attribute read
+            # again after the write -- not a copy of the attribute taken before it (`base = token.get('base')` at the top of the loop)
+            for j, e in enumerate(later):
+                if not normal(e):
+                    continue
+                arg = e[1][2][1][2][0] if e[1][2][1][2] else None
+                if arg is None or arg == written:
+                    break
+                if arg[0] == 'call' and arg[1][0] == 'attr' and arg[1][2] == 'get' and arg[2] and arg[2][0] == C(attr):
+                    reads = [i for i, e2 in enumerate(st.events[:raw[-1] + 1 + j]) if e2[0] == 'call' and e2[1] == arg]
+                    if reads and reads[-1] < raw[-1]:
+                        stale.append('%s: `%s` was read before `%s` was written and is normalised after it' % (attr, show(arg)[:40], show(st.events[raw[-1]][1])[:50]))
+                break
     if not n_paths:
         raise AnalysisError('%s: normalize_tokens has no path through its token loop' % CT)
+    rep.check(not stale, R, w2, 'normalize_tokens:fresh-read', 'the value normalised after a write is the one now in the attribute',
+              'normalize_tokens normalises a stale copy: %s -- the surface form just copied into an absent base form (base="*") is overwritten with the '
+              'normalised "*", and the predicate is named _* instead of the word' % sorted(set(stale))[:2])
     rep.check(not bad, R, w2, 'normalize_tokens:final-write', 'whatever normalize_tokens writes into base / surf is normalised afterwards, or found to be a name already (%d paths)' % n_paths,
               'normalize_tokens leaves a raw value in a token attribute: %s is the last write on a path, with no normalisation decision after it -- '
               'the name reaches the templates with its punctuation and without the underscore' % sorted(set(bad)))
